@@ -37,10 +37,10 @@ def pubstr(topic, payload, qos, retain, dup):
 
 
 class Scenario:
-    def __init__(self, rng, nnodes, mounts=1, settle=None):
+    def __init__(self, rng, nnodes, mounts=1, settle=None, real_log=False):
         self.rng = rng
         self.nn = nnodes
-        self.ops = [f"reset {nnodes}"]
+        self.ops = [f"reset {nnodes}" + (" real" if real_log else "")]
         self.exp = {}        # op index -> (dict client -> sorted list of stripped packets, rule)
         self.clients = {}    # name -> dict
         self.retained = {}   # (mount, topic) -> (payload, qos, dup)
@@ -48,12 +48,24 @@ class Scenario:
         self.k = 0
         self.mid = 10
         self.dirty = False   # gossip pending
+        self.now = 0         # the connections' clock (ms): moved by `elapse`
+        self.handshakes = {} # connection opened without CONNECT -> deadline for its CONNECT packet
 
     # ---- helpers
     def emit(self, op, expect=None, rule="unexpected-packets"):
         self.ops.append(op)
         if expect is not None:
             self.exp[len(self.ops) - 1] = ({c: sorted(v) for c, v in expect.items() if v}, rule)
+        # keep-alive bookkeeping: a session's read deadline is re-armed (twice its keep-alive) after every packet it
+        # sends and by every delivery written to it
+        f = op.split(" ")
+        touched = set(expect or {})
+        if len(f) > 1:
+            touched.add(f[1])
+        for c in touched:
+            v = self.clients.get(c)
+            if v and v["alive"]:
+                v["deadline"] = self.now + 2000 * v.get("ka", 60)
 
     def gossip(self):
         if self.nn > 1:
@@ -89,7 +101,8 @@ class Scenario:
         spec = "-"
         if will:
             spec = f"{will[0]}:{will[1]}:{will[2]}:{will[3]}"
-        self.clients[name] = {"node": node, "mount": mount, "cid": cid, "will": will, "subs": {}, "alive": True}
+        self.clients[name] = {"node": node, "mount": mount, "cid": cid, "will": will, "subs": {}, "alive": True, "ka": keepalive,
+                              "seq": self.k}
         self.emit(f"connect {name} {node} {cid} {mount} {keepalive} {spec}", {name: ["connack(0)"]}, "connect")
         self.gossip()
         return name
@@ -141,25 +154,73 @@ class Scenario:
             self.gossip()
         return deliv
 
-    def end(self, c, how):
-        """how: disconnect | drop"""
+    def burst(self, c, topic, qos, first, n):
+        """n publishes back to back (payload = 16-bit counter)"""
+        v = self.clients[c]
+        exp = {}
+        for k in range(first, first + n):
+            for r, x in self.deliveries(v["mount"], topic, f"{k:04x}", 0).items():
+                exp.setdefault(r, []).extend(x)
+            if qos == 1:
+                exp.setdefault(c, []).append(f"puback({k % 65535 + 1})")
+        self.emit(f"burst {c} {topic} {qos} {first} {n}", exp, "acked-publish-not-delivered")
+        for r in sorted(exp):
+            if any(",q=1," in p or ",q=2," in p for p in exp[r]):
+                self.emit(f"ackall {r}", {r: ["pubrel"] * sum(1 for p in exp[r] if ",q=2," in p)}, "handshake")
+
+    def _end_effects(self, c, how, exp, deliv):
         v = self.clients[c]
         v["alive"] = False
-        exp = {c: ["CLOSED"]}
-        deliv = {}
-        if how == "drop" and v["will"]:
+        exp.setdefault(c, []).append("CLOSED")
+        if how != "disconnect" and v["will"]:
             t, pl, q, r = v["will"]
-            deliv = self.deliveries(v["mount"], t, pl, 0)
+            d = self.deliveries(v["mount"], t, pl, 0)
             if r:
                 if pl in ("", "-"):
                     self.retained.pop((v["mount"], t), None)
                 else:
                     self.retained[(v["mount"], t)] = (pl, q, 0)
-            for k, x in deliv.items():
+            for k, x in d.items():
                 exp.setdefault(k, []).extend(x)
+                deliv.setdefault(k, []).extend(x)
+
+    def end(self, c, how):
+        """how: disconnect | drop"""
+        exp, deliv = {}, {}
+        self._end_effects(c, how, exp, deliv)
         self.emit(f"{how} {c}", exp, "session-end")
         self.ack_receivers(deliv)
         self.gossip()
+
+    def open(self, node=0):
+        """a connection that never sends CONNECT"""
+        self.k += 1
+        name = f"h{self.k}"
+        self.handshakes[name] = (self.now + 3000, self.k)
+        self.emit(f"open {name} {node}", {}, "open")
+        return name
+
+    def deadlines(self):
+        return [v["deadline"] for v in self.clients.values() if v["alive"]] + [d for d, _ in self.handshakes.values()]
+
+    def elapse(self, ms):
+        """time passes on the connections' clock: exactly the sessions whose keep-alive allowance (twice the keep-alive
+        since their last packet) is exhausted end, as by a lost connection; so do connections that never sent CONNECT
+        within 3 s; nobody else is touched"""
+        self.now += ms
+        exp, deliv = {}, {}
+        due = sorted((v["node"], v["seq"], c) for c, v in self.clients.items() if v["alive"] and v["deadline"] < self.now)
+        for _, _, c in due:
+            self._end_effects(c, "timeout", exp, deliv)
+        for h, (d, _) in sorted(self.handshakes.items(), key=lambda e: e[1][1]):
+            if d < self.now:
+                exp.setdefault(h, []).append("CLOSED")
+                del self.handshakes[h]
+        self.emit(f"elapse {ms}", exp, "keep-alive")
+        if due:
+            self.ack_receivers(deliv)
+            self.gossip()
+        return [c for _, _, c in due]
 
     def check_state(self):
         """at quiescence every node lists exactly the live sessions and their subscriptions"""
@@ -183,6 +244,12 @@ def monitor_for(scenarios_exp):
     """scenarios_exp: op index -> (expected, rule)"""
     def mon(ops, impl):
         out = []
+        for i, line in enumerate(impl):
+            if i not in scenarios_exp and (line.startswith("panic") or line == "<no-output>"):
+                out.append((i, "broker-panicked", f"`{ops[i]}` made the broker panic (in the real broker this goroutine has no recover: the process dies): {line[:200]}"))
+            elif i not in scenarios_exp and line.startswith("RUNAWAY"):
+                out.append((i, "broker-never-quiet", f"`{ops[i]}`: {line}"))
+                break
         for i, (exp, rule) in scenarios_exp.items():
             line = impl[i]
             if line.startswith("panic") or line == "<no-output>":
@@ -538,8 +605,90 @@ def gen_lifecycle(rng, nn, mounts=1, takeover=0.25, fine_gossip=False):
     return sc
 
 
+def gen_timing(rng, nn=None):
+    """sessions with short keep-alives on a virtual clock: idle periods of any length relative to the keep-alive, at any
+    point including right after CONNECT; pings, publishes and deliveries re-arm the allowance; a few connections never
+    send CONNECT. The oracle says who must be gone after each period, and that nobody else is."""
+    nn = nn or rng.choice([1, 1, 2])
+    sc = Scenario(rng, nn, 1)
+    w = sc.connect(node=0, keepalive=600)
+    sc.sub(w, [("w/#", rng.choice([0, 1]))])
+    names = []
+    def new_client():
+        if len(sc.clients) >= 7:
+            return
+        ka = rng.choice([1, 1, 2, 3, 5])
+        c = sc.connect(keepalive=ka, will=(f"w/{sc.k + 1}", rng.choice(["6279", "00"]), rng.choice([0, 1]), 0))
+        names.append(c)
+        if rng.random() < 0.5:
+            sc.sub(c, [(rng.choice(["a/#", "a/b", "w/#"]), rng.choice([0, 1]))])
+    for _ in range(rng.choice([2, 3])):
+        new_client()
+    for _ in range(rng.choice([8, 12, 16])):
+        r = rng.random()
+        alive = [c for c in names if sc.clients[c]["alive"]]
+        if r < 0.45:
+            # a period that ends at least 100 ms away from every deadline
+            base = rng.choice([300, 900, 1500, 1900, 2100, 2900, 3100, 3900, 4100, 5900, 6100, 9900, 10100])
+            for extra in (0, 200, 400, 600, 800, 1000):
+                if all(abs(d - (sc.now + base + extra)) >= 100 for d in sc.deadlines()):
+                    sc.elapse(base + extra)
+                    break
+        elif r < 0.7 and alive:
+            c = rng.choice(alive)
+            sc.emit(f"ping {c}", {c: ["pingresp"]}, "healthy-session-ended")
+        elif r < 0.82:
+            sc.pub(w, rng.choice(["a/b", "a", "b"]), "01", rng.choice([0, 1]))
+        elif r < 0.9:
+            new_client()
+        elif r < 0.96:
+            sc.open(node=rng.randrange(nn))
+        else:
+            sc.check_state()
+    # everybody falls silent for good
+    while any(sc.clients[c]["alive"] for c in names) or sc.handshakes:
+        sc.elapse(10300)
+    sc.check_state()
+    return sc
+
+
+def corpus_idle_right_after_connect(rng):
+    """a client may stay silent for up to twice its keep-alive right after CONNECT, also when that is longer than the
+    3 s allowed for the CONNECT packet itself"""
+    sc = Scenario(rng, 1, 1)
+    w = sc.connect(node=0, keepalive=600)
+    sc.sub(w, [("w/#", 0)])
+    c = sc.connect(node=0, keepalive=5, will=("w/c", "6279", 0, 0))
+    sc.elapse(3500)
+    sc.emit(f"ping {c}", {c: ["pingresp"]}, "healthy-session-ended")
+    sc.elapse(9000)
+    sc.emit(f"ping {c}", {c: ["pingresp"]}, "healthy-session-ended")
+    sc.elapse(10100)
+    sc.check_state()
+    return sc
+
+
 def add_timing_suites(c, samples):
-    return
+    n = 10 if c.tier == "quick" else 200
+    scs = [corpus_idle_right_after_connect(c.rng)] + [gen_timing(c.rng) for _ in range(n)]
+    run_scenarios(c, "keep-alive-virtual-clock", scs, samples)
+    if c.tier != "quick":
+        # the same behaviour on the wall clock (the virtual clock must not be what makes it true)
+        sc = Scenario(c.rng, 1, 1)
+        sc.ops.append("realtime 1")
+        w = sc.connect(node=0, keepalive=600)
+        sc.sub(w, [("w/#", 0)])
+        a = sc.connect(node=0, keepalive=2, will=("w/a", "01", 0, 0))
+        b = sc.connect(node=0, keepalive=1, will=("w/b", "02", 0, 0))
+        sc.now += 3400
+        sc.clients[b]["alive"] = False
+        sc.emit("idle 3400", {b: ["CLOSED"], w: [pubstr("w/b", "02", 0, 0, 0)]}, "keep-alive")
+        sc.emit(f"ping {a}", {a: ["pingresp"]}, "healthy-session-ended")
+        sc.now += 3400
+        sc.emit("idle 3400", {}, "keep-alive")
+        sc.emit(f"ping {a}", {a: ["pingresp"]}, "healthy-session-ended")
+        sc.check_state()
+        run_scenarios(c, "keep-alive-wall-clock", [sc], samples)
 
 
 def gen_nodefail(rng, clean):
@@ -599,8 +748,33 @@ def add_nodefail_suites(c, samples):
     run_scenarios(c, "node-failure", scs, samples)
 
 
+def gen_reallog(rng, total, nn=1):
+    """a long publish history through the real commit-log store of each node: segment rolls (every 500 entries) and
+    truncation (when the consumer passes 2000, 3000, …) happen while publishers keep the writer behind the scheduler"""
+    sc = Scenario(rng, nn, 1, real_log=True)
+    pubs = [sc.connect(node=rng.randrange(nn)) for _ in range(rng.choice([1, 2]))]
+    subs = [sc.connect(node=n) for n in range(nn)]
+    if rng.random() < 0.5:
+        subs.append(sc.connect(node=0))
+    for s_ in subs:
+        sc.sub(s_, [(rng.choice(["a/#", "a/b", "#"]), rng.choice([0, 0, 1]))])
+    k = 0
+    while k < total:
+        n = min(rng.choice([1, 7, 60, 250, 250, 250]), total - k)
+        if (k + n) % 1000 == 0:
+            n += 37     # a truncation point is crossed inside a burst, never exactly at its end
+        sc.burst(rng.choice(pubs), "a/b", rng.choice([0, 1, 1]), k, n)
+        k += n
+    sc.check_state()
+    return sc
+
+
 def add_reallog_suites(c, samples):
-    return
+    # the first messages a node ever stores, and a history that crosses the first truncation point
+    scs = [gen_reallog(c.rng, 3), gen_reallog(c.rng, 2300)]
+    if c.tier != "quick":
+        scs += [gen_reallog(c.rng, 520, nn=2), gen_reallog(c.rng, 4300), gen_reallog(c.rng, 3200, nn=2)]
+    run_scenarios(c, "real-commit-log-long-history", scs, samples)
 
 
 # ------------------------------------------------------------------------------------------------ corpus
@@ -708,8 +882,56 @@ def corpus_takeover_seen_out_of_order(rng):
     return sc
 
 
+def corpus_same_client_id_two_tenants(rng):
+    """the same client identifier live in two mount points: each session keeps being served"""
+    sc = Scenario(rng, 1, 2)
+    a = sc.connect(node=0, mount="mp", cid="shared")
+    b = sc.connect(node=0, mount="mq", cid="shared")
+    c = sc.connect(node=0, mount="mr" if "mr" in sc.mounts else "mq", cid="other")
+    for _ in range(5):
+        for x in (a, b, c):
+            sc.emit(f"ping {x}", {x: ["pingresp"]}, "healthy-session-ended")
+    sc.check_state()
+    return sc
+
+
+def gen_abandoned_exchanges(rng):
+    """valid exchanges abandoned at every stage (the client vanishes or disconnects mid-handshake), followed by expiry sweeps
+    and a witness round trip: nothing a client does or omits may take the broker down"""
+    sc = Scenario(rng, 1, 1)
+    w1 = sc.connect(node=0)
+    w2 = sc.connect(node=0)
+    sc.sub(w1, [("wit", 0)])
+    stages = ["sub-q1-unacked", "sub-q2-unacked", "sub-q2-pubrec", "pub-q2-no-pubrel", "pub-q2-released", "sub-q1-acked"]
+    for k, stage in enumerate(rng.sample(stages, len(stages))):
+        h = sc.connect(node=0, will=rng.choice([None, ("hw", "01", 1, 0)]))
+        q = 2 if "q2" in stage else 1
+        if stage.startswith("sub"):
+            sc.sub(h, [("x", q)])
+            sc.mid += 1
+            sc.emit(f"pub {w2} x 0{k} 0 0 0 {sc.mid}", {h: [pubstr("x", f"0{k}", q, 0, 0)]}, "delivery")
+            if stage == "sub-q2-pubrec":
+                sc.ops.append(f"ack {h} pubrec #1")
+            if stage == "sub-q1-acked":
+                sc.ops.append(f"ack {h} puback #1")
+        else:
+            sc.ops.append(f"pub {h} y 0{k} 2 0 0 7")
+            if stage == "pub-q2-released":
+                sc.ops.append(f"rawack {h} pubrel 7")
+        how = rng.choice(["drop", "disconnect"])
+        sc.clients[h]["alive"] = False
+        sc.ops.append(f"{how} {h}")
+        sc.ops.append("expire 0")
+        sc.ops.append("expire 0")
+        sc.mid += 1
+        sc.emit(f"pub {w2} wit {'%02x' % k} 0 0 0 {sc.mid}", {w1: [pubstr("wit", "%02x" % k, 0, 0, 0)]}, "witness-stalled")
+    sc.ops.append("pool 0")
+    return sc
+
+
 def corpus(rng, names):
     table = {"slow-qos2": corpus_slow_qos2_then_next, "first-message": corpus_first_message,
              "inbound-outbound-id": corpus_inbound_outbound_same_id, "wrong-type-ack": corpus_wrong_type_ack,
-             "removal-overtakes-creation": corpus_removal_overtakes_creation, "takeover-out-of-order": corpus_takeover_seen_out_of_order}
+             "removal-overtakes-creation": corpus_removal_overtakes_creation, "takeover-out-of-order": corpus_takeover_seen_out_of_order,
+             "same-client-id-two-tenants": corpus_same_client_id_two_tenants}
     return [table[n](rng) for n in names]
